@@ -1,6 +1,7 @@
 import SerfModel.Check.Core
 import SerfModel.Model.AgentTags
 import SerfModel.Gen.AgentSetTags
+import SerfModel.Gen.AgentTagsSrc
 /-!
 C30 checker.  A real agent with a tags file; tag edits through the real RPC path.
 
@@ -24,7 +25,8 @@ namespace SerfModel.Check.C30
 open SerfModel SerfModel.Check SerfModel.AgentTags
 
 structure St where
-  m : Option AgentTags.St := none
+  /-- model: heap view (live map, gossiped tags, file) -/
+  m : Option AgentTags.Heap := none
   /-- monitor: what the implementation last reported -/
   implEff : Tags := []
   implFile : Option Tags := some []
@@ -48,9 +50,9 @@ def showTags (t : Tags) : String :=
   if t.isEmpty then "_" else
   ",".intercalate ((sortTags t).map fun p => hexOfBytes p.1 ++ ":" ++ hexOfBytes p.2)
 
-def showState (status : String) (s : AgentTags.St) : String :=
-  let metaHex := if s.effective.length ≤ 1 then hexOfBytes (encodeTags s.effective) else "*"
-  s!"{status} eff={showTags s.effective} conf={showTags s.effective} file={showTags s.file} metalen={encodedSize s.effective} meta={metaHex}"
+def showState (status : String) (s : AgentTags.Heap) : String :=
+  let metaHex := if s.gossiped.length ≤ 1 then hexOfBytes (encodeTags s.gossiped) else "*"
+  s!"{status} eff={showTags s.gossiped} conf={showTags s.conf} file={showTags s.file} metalen={encodedSize s.gossiped} meta={metaHex}"
 
 structure Impl where
   status : String
@@ -112,7 +114,7 @@ def step (s : St) (op : List String) (impl : String) : LineOut St :=
     match parseTags ts with
     | none => { state := s, model := some "bad-op" }
     | some t =>
-      match restart { effective := t, file := t } with
+      match heapRestart { conf := t, gossiped := t, file := t } with
       | none => { state := { s with m := none }, model := some "start-failed" }
       | some ms =>
         let mon := match i? with
@@ -123,7 +125,7 @@ def step (s : St) (op : List String) (impl : String) : LineOut St :=
   | ["edit", sets, dels] =>
     match s.m, parseTags sets, parseKeys dels with
     | some ms, some set, some del =>
-      let (ms', ok) := AgentTags.step sh ms ⟨set, del⟩
+      let (ms', ok) := AgentTags.heapStep ⟨SerfModel.Gen.AgentTagsSrc.freshMap⟩ sh ms ⟨set, del⟩
       let mon := match i? with
         | some i => monitorEdit s set del i
         | none => some ("malformed", impl)
@@ -135,7 +137,7 @@ def step (s : St) (op : List String) (impl : String) : LineOut St :=
     | none => { state := s, model := some "dead" }
     | some ms =>
       let ahead := s.implFile.map (sameTags s.implEff) != some true
-      match restart ms with
+      match heapRestart ms with
       | none =>
         let mon := if impl == "start-failed" then
             (if ahead then some ("tags-file-ahead", "the agent does not start on the tags file it wrote: the file holds a rejected edit")
